@@ -27,7 +27,10 @@ ALSO = {"C15_m1": ["C05", "C01"], "C01_m2": ["C08", "C06"], "C02_m2": ["C01", "C
         "C16_m8": ["C09"], "C17_m8": ["C19"], "C18_m8": ["C04", "C01"], "C19_m8": ["C01"], "C14_m8": ["C04"],
         "C01_m9": ["C04", "C08"], "C02_m9": ["C08", "C01"], "C03_m9": ["C01"], "C04_m9": ["C01", "C12"], "C05_m9": ["C01", "C15"], "C06_m9": ["C14", "C11"],
         "C07_m9": ["C14"], "C08_m9": ["C06"], "C09_m9": ["C16", "C01"], "C10_m9": ["C07"], "C11_m9": ["C04", "C01"], "C12_m9": ["C01"],
-        "C14_m9": ["C06"], "C15_m9": ["C05", "C01"], "C16_m9": ["C09"], "C17_m9": ["C12"], "C19_m9": ["C07", "C10"], "C20_m9": ["C01", "C11"]}
+        "C14_m9": ["C06"], "C15_m9": ["C05", "C01"], "C16_m9": ["C09"], "C17_m9": ["C12"], "C19_m9": ["C07", "C10"], "C20_m9": ["C01", "C11"],
+        "C01_m10": ["C05", "C15"], "C02_m10": ["C19", "C01"], "C03_m10": ["C12"], "C04_m10": ["C01"], "C05_m10": ["C01", "C04"], "C06_m10": ["C11"],
+        "C07_m10": ["C14"], "C08_m10": ["C09"], "C09_m10": ["C08", "C16"], "C10_m10": ["C05"], "C11_m10": ["C04", "C01"], "C12_m10": ["C03"],
+        "C15_m10": ["C05", "C01"], "C16_m10": ["C06"], "C18_m10": ["C19"], "C19_m10": ["C17"], "C20_m10": ["C06"], "C17_m10": ["C12", "C03"]}
 
 
 def needs_of(notes: str) -> str:
